@@ -58,6 +58,8 @@ def s_default_roots():
         tdef("scalar", "Date"),
         dirdef("tag", ["OBJECT", "FIELD_DEFINITION", "ARGUMENT_DEFINITION", "INTERFACE", "UNION", "ENUM", "ENUM_VALUE", "INPUT_OBJECT",
                        "INPUT_FIELD_DEFINITION", "SCALAR"], [ival("name", NN(N("String")), G.v_str("t")), ival("n", N("Int"))], True),
+        dirdef("exec", ["QUERY", "MUTATION", "SUBSCRIPTION", "FIELD", "FRAGMENT_DEFINITION", "FRAGMENT_SPREAD", "INLINE_FRAGMENT",
+                        "VARIABLE_DEFINITION"], [ival("n", N("Int")), ival("must", NN(N("String")), G.v_str("d"))], True),
         tdef("interface", "Node", fields=[fdef("id", NN(N("ID")))]),
         tdef("interface", "Named", interfaces=["Node"], fields=[fdef("id", NN(N("ID"))), fdef("name", N("String"))], dirs=[tag()]),
         tdef("object", "User", interfaces=["Named", "Node"], dirs=[tag("u"), tag("v")], fields=[
